@@ -738,6 +738,27 @@ fn do_provide(
                         ctx.fail("C01", "deposit_share", "over_mint", None,
                             format!("deposit {:?} into R {:?} S {} minted {minted_total} > pro-rata {cap}", amounts, before.reserves, before.share));
                     }
+                    // C07: owed protocol fees are not LP reserves on any path. The documented mint is
+                    // min_i floor(deposit_i * S / reserve_i) over the reserves net of owed fees; a mint that
+                    // differs from it and is exactly what the same formula gives when the owed fees of one
+                    // or both assets are counted as reserves means a collection would change the price
+                    // deposits are minted at
+                    if before.pending[0] > 0 || before.pending[1] > 0 {
+                        ctx.eval("C07");
+                        ctx.probe("deposit_with_fees_pending");
+                        if u256(minted_total) != cap {
+                            for mask in 1..4u8 {
+                                let r0 = before.reserves[0].saturating_add(if mask & 1 != 0 { before.pending[0] } else { 0 });
+                                let r1 = before.reserves[1].saturating_add(if mask & 2 != 0 { before.pending[1] } else { 0 });
+                                let alt = muldiv(amounts[0], before.share, r0.max(1)).min(muldiv(amounts[1], before.share, r1.max(1)));
+                                if u256(minted_total) == alt {
+                                    ctx.fail("C07", "deposit_priced_on_reserves_net_of_fees", "owed_fees_counted_as_reserves", None,
+                                        format!("deposit {:?} into R {:?} (owed fees {:?}) S {} minted {minted_total}: the reserves net of owed fees give {cap}, counting the owed fees (mask {mask}) as reserves gives exactly {alt}", amounts, before.reserves, before.pending, before.share));
+                                    break;
+                                }
+                            }
+                        }
+                    }
                 } else if let PType::Stable { amp } = s.cfg.ptype {
                     stable2::check_deposit(s, ctx, amp, &before, &after, amounts, minted_total);
                 }
